@@ -191,6 +191,9 @@ def expr_steps():
     add("arith", lambda x, c: x >> pdt.mutate(w=x.a * x.h - 3, v=x.h // 4, u=x.h % 4, p=(-x.h) // 4, q=(-x.h) % 4, r=x.b / 2 + x.a, ab=(x.a - 3).abs(), fl=(x.b / 4).floor(), ce=(x.b / 4).ceil()), needs=("a", "b", "h"))
     add("compare/bool", lambda x, c: x >> pdt.mutate(w=(x.a > 2) & x.f, v=(x.a <= 2) | x.f, u=~x.f, e=x.a == x.h, ne=x.a != x.h, i=x.a.is_in(1, 2, 5), i2=x.h.is_in(x.a, 7), i3=x.a.is_in(1, None), en=x.a == None, nen=x.s != None,  # noqa: E711
          n=x.a.is_null(), nn=x.s.is_not_null(), x_=x.f ^ (x.a > 1)), needs=("a", "f", "h", "s"))
+    # a window / aggregate function in the CONDITION of a case expression (the expression is then a window expression itself)
+    add("case(cond=window)", lambda x, c: x >> pdt.mutate(w=pdt.when(x.h.shift(1, arrange=x.h) > 2).then(1).otherwise(0), v=pdt.when(x.a.sum() > 4).then(x.h).otherwise(-1), r=pdt.when(pdt.row_number(arrange=x.h.descending()) <= 2).then(True)), needs=("a", "h"), uniq=True)
+    add("strip", lambda x, c: x >> pdt.mutate(st=("\t " + x.s + " \n").str.strip(), st2=(x.s + "\r\n").str.strip().str.len()), needs=("s",))
     add("string", lambda x, c: x >> pdt.mutate(w=x.s + "z", v=x.s.str.len(), u=x.s.str.upper(), st=x.s.str.starts_with("k"), ct=x.s.str.contains("1"), sl=x.s.str.slice(1, 2), rp=x.s.str.replace_all("k", "qq")), needs=("s",))
     add("cast", lambda x, c: x >> pdt.mutate(w=x.a.cast(pdt.Float64()), v=x.h.cast(pdt.String()), u=x.f.cast(pdt.Int64()), b_=x.b.cast(pdt.Int64())), needs=("a", "b", "f", "h"))
     add("min/max horizontal", lambda x, c: x >> pdt.mutate(w=pdt.max(x.a, x.h), v=pdt.min(x.a, x.h, 3), w4=pdt.max(x.h, x.a, 3, x.h - 4), v4=pdt.min(x.a + 5, x.h + 5, x.h, x.a + 1), v5=pdt.min(x.h, 9, x.a, x.h * 2, 4)), needs=("a", "h"))
